@@ -314,6 +314,7 @@ impl ParallelCacheState {
             // we need to changed state to destroyed.
             if is_destructed {
                 self.storage.remove(&address);
+                vpoint!(CACHE_CLEAR);
                 return self.get_account_mut(address).selfdestruct();
             }
 
@@ -328,6 +329,7 @@ impl ParallelCacheState {
             if is_created {
                 let info = account.info;
                 self.storage.remove(&address);
+                vpoint!(CACHE_CLEAR);
                 let (transition, changed_slots) =
                     self.get_account_mut(address).newly_created(info.clone(), changed_storage);
                 self.contracts.entry(info.code_hash).or_insert_with(|| info.code.clone().unwrap());
@@ -342,6 +344,7 @@ impl ParallelCacheState {
             // reaches the commit layer as touched, empty, and not created must be cleared.
             else if is_empty {
                 self.storage.remove(&address);
+                vpoint!(CACHE_CLEAR);
                 drop(changed_storage);
                 (self.get_account_mut(address).touch_empty_eip161(), None)
             } else {
